@@ -11,7 +11,7 @@ from vlib import VERIF
 PARSER_FNS = ['next_lexem', 'drop_lexem', 'there_are_remaining_lexems', 'parse_where', 'parse_expr', 'parse_and',
               'parse_cond', 'parse_add_sub', 'parse_mul_div', 'parse_paren', 'parse_func_scalar', 'parse_function',
               'parse_group_by', 'parse_order_by', 'parse_limit', 'parse_output_format', 'negate_expr_op',
-              'parse_root_options', 'parse_fields', 'is_root_option_keyword']
+              'parse_root_options', 'parse_fields', 'is_root_option_keyword', 'is_regexp_root_option']
 
 
 NOT_EXTRACTED = ['new', 'parse', 'parse_roots']
